@@ -169,7 +169,8 @@ func encryptSM2EC(c *sm2Curve, pub *ecdsa.PublicKey, random io.Reader, msg []byt
 		if err != nil {
 			return nil, err
 		}
-		C2, err := Q.ScalarMult(Q, k.Bytes(c.N))
+		// Q must stay the public key: the loop runs again when t is all zero
+		C2, err := c.newPoint().ScalarMult(Q, k.Bytes(c.N))
 		if err != nil {
 			return nil, err
 		}
